@@ -1045,7 +1045,8 @@ class PluginManager:
         """
         Inform any listeners that the current file has been completed.
         """
-        context.line_number = line_number
+        main_context = context
+        self.__set_line_number(main_context, line_number, context_map)
         current_fix_line: Optional[str] = None
         line_append_record: Optional[FixLineRecord] = None
 
@@ -1053,6 +1054,7 @@ class PluginManager:
         # believes that only one of the paths were covered.
         # sourcery skip: remove-assert-true
         for next_plugin in self.__enabled_plugins_for_completed_file:
+            context = main_context
             if context_map:
                 if next_plugin.plugin_id not in context_map:
                     continue
@@ -1077,10 +1079,25 @@ class PluginManager:
                     inspect.stack()[0].function,
                     cause=this_exception,
                 ) from this_exception
-        if context.in_fix_mode:
+        if main_context.in_fix_mode:
             self.__completed_file_fix_mode_end(
-                context, current_fix_line, line_append_record
+                main_context, current_fix_line, line_append_record
             )
+
+    @staticmethod
+    def __set_line_number(
+        context: PluginScanContext,
+        line_number: int,
+        context_map: Optional[Dict[str, PluginScanContext]],
+    ) -> None:
+        """
+        Every context that a plugin may be handed for this event must report
+        the same line number, not just the primary one.
+        """
+        context.line_number = line_number
+        if context_map:
+            for mapped_context in context_map.values():
+                mapped_context.line_number = line_number
 
     def __next_line_fix_mode_end(
         self,
@@ -1161,8 +1178,10 @@ class PluginManager:
         """
         Inform any listeners that a new line has been loaded.
         """
-        context.line_number = line_number
+        main_context = context
+        self.__set_line_number(main_context, line_number, context_map)
         for next_plugin in self.__enabled_plugins_for_next_line:
+            context = main_context
             if context_map:
                 if next_plugin.plugin_id not in context_map:
                     continue
@@ -1188,9 +1207,12 @@ class PluginManager:
                     cause=this_exception,
                 ) from this_exception
 
-        if context.in_fix_mode:
+        if main_context.in_fix_mode:
             self.__next_line_fix_mode_end(
-                context, line, is_last_line_in_file, was_newline_added_at_end_of_file
+                main_context,
+                line,
+                is_last_line_in_file,
+                was_newline_added_at_end_of_file,
             )
 
     # pylint: enable=too-many-arguments
